@@ -16,7 +16,7 @@ open RtenVerif.FastBroadcast
 theorem inPlaceLoop_spec {α β : Type} (f : α → β → α) (bs : List β) :
     ∀ (suf pre : List α), pre.length + suf.length ≤ bs.length →
       inPlaceLoop f (fun i => bs[i]?) pre.length suf.length (pre ++ suf) =
-        pre ++ List.zipWith f suf (bs.drop pre.length) := by
+        some (pre ++ List.zipWith f suf (bs.drop pre.length)) := by
   intro suf
   induction suf with
   | nil => intro pre _; simp [inPlaceLoop]
@@ -38,7 +38,7 @@ theorem inPlaceLoop_spec {α β : Type} (f : α → β → α) (bs : List β) :
 
 theorem inPlaceLoop_eq_zipWith {α β : Type} (f : α → β → α) (bs : List β) (a : List α)
     (h : a.length ≤ bs.length) :
-    inPlaceLoop f (fun i => bs[i]?) 0 a.length a = List.zipWith f a bs := by
+    inPlaceLoop f (fun i => bs[i]?) 0 a.length a = some (List.zipWith f a bs) := by
   have := inPlaceLoop_spec f bs a [] (by simpa using h)
   simpa using this
 
